@@ -4,6 +4,7 @@ from typing import Awaitable, Callable, Dict, List, Optional, Tuple, Type, Union
 
 import h2
 import h2.connection
+import h2.errors
 import h2.events
 import h2.exceptions
 import priority
@@ -238,6 +239,19 @@ class H2Protocol:
                 self.connection.send_headers(event.stream_id, event.headers, end_stream=True)
                 await self._flush()
             elif isinstance(event, StreamClosed):
+                buffer = self.stream_buffers.get(event.stream_id)
+                if (
+                    buffer is not None
+                    and not buffer._complete
+                    and isinstance(self.streams.get(event.stream_id), HTTPStream)
+                ):
+                    # The response was started but never finished, tell
+                    # the client rather than leave the stream open.
+                    await buffer.close()
+                    self.connection.reset_stream(
+                        event.stream_id, h2.errors.ErrorCodes.INTERNAL_ERROR
+                    )
+                    await self._flush()
                 await self._close_stream(event.stream_id)
                 idle = len(self.streams) == 0 or all(
                     stream.idle for stream in self.streams.values()
